@@ -26,7 +26,7 @@ func (s *Scn) String() string {
 }
 
 func (s *Scn) Replay() map[string]any {
-	return map[string]any{"config": s.Cfg.Name, "opl": refsem.RenderOPL(s.Cfg.NS), "strict": s.Cfg.Strict, "tuples_in_row_order": tuplesStr(s.Tuples), "query": s.Query.String()}
+	return map[string]any{"cfgref": s.Cfg.Ref, "tuples": s.Tuples, "q": s.Query, "config": s.Cfg.Name, "opl": refsem.RenderOPL(s.Cfg.NS), "strict": s.Cfg.Strict, "tuples_in_row_order": tuplesStr(s.Tuples), "query": s.Query.String()}
 }
 
 // graphs: small tuple sets that force the mechanisms named in the anchors
